@@ -173,6 +173,35 @@ def single_operand_families():
     return out
 
 
+def dangling_families():
+    """References to relations nobody defines: a userset restriction or a computed userset that names folder#reader / doc#reader although
+    no such relation exists gets a node (it is mentioned), a tuple-to-userset through a parent type that lacks the relation gets NO edge
+    from it - whatever was mentioned before, in whatever order the names sort."""
+    out = []
+    this = {"k": "this"}
+
+    def ty(t, kind="type", rel=""):
+        return {"t": t, "kind": kind, "rel": rel, "cond": ""}
+    k = 0
+    for mention in ("audit", "zaudit"):                  # sorts before / after the relation that holds the tuple-to-userset
+        for parents in (["folder"], ["archive", "folder"], ["folder", "archive"]):
+            for how in ("uset", "cu", "none"):
+                rels = [{"name": "can_read", "rw": {"k": "ttu", "rel": "reader", "ts": "parent"}, "restr": []},
+                        {"name": "parent", "rw": this, "restr": [ty(p) for p in parents]}]
+                if how == "uset":
+                    rels.append({"name": mention, "rw": this, "restr": [ty("folder", "uset", "reader"), ty("user")]})
+                elif how == "cu":
+                    rels.append({"name": mention, "rw": {"k": "union", "ch": [this, {"k": "cu", "rel": "reader"}]}, "restr": [ty("user")]})
+                rels.sort(key=lambda r: r["name"])
+                types = [{"name": "archive", "rels": [{"name": "reader", "rw": this, "restr": [ty("user")]}]},
+                         {"name": "doc", "rels": rels},
+                         {"name": "folder", "rels": [{"name": "owner", "rw": this, "restr": [ty("user")]}]},      # no reader here
+                         {"name": "user", "rels": []}]
+                out.append({"id": "dg%d" % k, "m": {"types": types}})
+                k += 1
+    return out
+
+
 def run(pid, tier):
     chk = Check(pid, tier, "model_checking")
     sc = Scratch()
@@ -190,6 +219,7 @@ def run(pid, tier):
         models += read_ndjson(gen)
         models += computed_families(tier)
         models += single_operand_families()
+        models += dangling_families()
         calls = 3 if tier == "quick" else 4
         res = run_models(chk, binary, sc, models, calls, 20 if tier == "quick" else 50, "pg")
         log("TLC: %d models, %d states of the API automaton (Build ; Reverse^%d), %.0fs" % (len(models), res.distinct, calls, res.wall))
